@@ -108,39 +108,65 @@ def sub_image(prog, rep):
     rep.check(ro == ("field", area, field_index(prog, RECT, "size")), "R09.1", "SubImage::size", "SubImage::size must be self.area.size; found %s" % show(ro), at=sz.span, fn=sz.path)
 
 
+def _bpr(w):
+    """(w * bpp + 7) / 8 with bpp = the colour's BITS_PER_PIXEL (pattern; casts stripped, constants folded)"""
+    return ("bin", "Div", ("bin", "Add", ("bin", "Mul", w, "?bpp"), ("const", 7)), ("const", 8))
+
+
+def _inl_bpr(prog):
+    return lambda g: prog.is_new(g) or (g.name == "bytes_per_row" and "image_raw" in g.path)
+
+
+def _nocast(t):
+    from mirq.origin import subst
+    return subst(t, lambda n: n[1] if n[0] == "cast" else None)
+
+
 def bytes_per_row_form(prog, rep):
-    f = prog.fn_by_path("embedded_graphics::image::image_raw::bytes_per_row")
-    ro = fold(strip_refs(Origins(f).return_origin()))
-    ok = match(ro, ("bin", "Div", ("bin", "Add", ("bin", "Mul", P(1, "width"), P(2, "bits_per_pixel")), ("const", 7)), ("const", 8))) is not None
+    """the row-length helper, wherever it lives (free function or associated, with the depth as a parameter or read from the
+    colour type): (width * bpp + 7) / 8"""
+    fs = [f for f in prog.fns.values() if f.body and f.name == "bytes_per_row" and f.kind in ("fn", "assoc_fn") and "image_raw" in f.path]
+    if len(fs) != 1:
+        # no helper (inlined at its uses): the formula is matched where it is used (ImageRaw::new, data_width)
+        rep.ok("R09.2", "bytes_per_row", detail="no bytes_per_row helper (%d); the formula is matched at its uses" % len(fs))
+        return None
+    f = fs[0]
+    ro = _nocast(fold(strip_refs(Origins(f).return_origin())))
+    m = match(ro, _bpr(P(1, "width")))
+    ok = m is not None and (m["?bpp"] == P(2, "bits_per_pixel") or is_bpp(m["?bpp"]))
     rep.check(ok, "R09.2", "bytes_per_row", "rows are padded to whole bytes: bytes_per_row must be (width*bpp + 7) / 8; found %s" % show(ro), at=f.span, fn=f.path)
     return f
 
 
 def image_new(prog, rep):
-    bpr = bytes_per_row_form(prog, rep)
+    bytes_per_row_form(prog, rep)
     n = prog.method1(IR, "new", None)
-    want_exp = ("bin", "Mul", ("call", bpr.path, "_", (("field", P(2, "size"), 0), "?bpp")), ("field", P(2, "size"), 1))
+    P_ = Paths(prog, inline=_inl_bpr(prog))
+    want_exp = ("bin", "Mul", _bpr(("field", P(2, "size"), 0)), ("field", P(2, "size"), 1))
     ok_paths = 0
     good = True
-    for lits, ret, path in decisions(n):
-        r = strip_refs(ret)
+    try:
+        summs = P_.of(n)
+    except Unsupported:
+        summs = []
+        good = False
+    for sm in summs:
+        r = strip_refs(sm.ret)
         if r[0] == "agg" and r[1].endswith("Result::Ok"):
             ok_paths += 1
             cond = False
-            for d, lit in lits:
-                d = fold(strip_refs(d))
-                m = match(d, ("bin", "Ne", ("call", "*::len", "_", (P(1, "data"),)), "?e"))
-                if m is not None and lit_truth(lit) is False:
-                    mm = match(m["?e"], want_exp)
-                    cond = mm is not None and is_bpp(mm["?bpp"])
-                m = match(d, ("bin", "Eq", ("call", "*::len", "_", (P(1, "data"),)), "?e"))
-                if m is not None and lit_truth(lit) is True:
-                    mm = match(m["?e"], want_exp)
-                    cond = mm is not None and is_bpp(mm["?bpp"])
-            good = good and cond
+            for fc in sm.facts:
+                if fc[0] != "eq":
+                    continue
+                sides = [_nocast(fold(strip_refs(x))) for x in fc[1:3]]
+                for a_, b_ in (sides, sides[::-1]):
+                    if match(a_, ("call", "*::len", "_", (P(1, "data"),))) is not None or (a_[0] == "un" and a_[1] == "PtrMetadata" and strip_refs(a_[2]) == P(1, "data")):
+                        mm = match(b_, want_exp)
+                        cond = cond or (mm is not None and is_bpp(mm["?bpp"]))
+            good = good and cond and len(sm.facts) == 1
             # the stored fields are the arguments
             mm = match(r, ("agg", "*Result::Ok", (("agg", "*ImageRaw::ImageRaw", "?ops"),)))
-            good = good and mm is not None and mm["?ops"][0] == P(1, "data") and mm["?ops"][1] == P(2, "size")
+            good = good and mm is not None and strip_refs(mm["?ops"][0]) == P(1, "data") and strip_refs(mm["?ops"][1]) == P(2, "size")
     rep.check(good and ok_paths >= 1, "R09.2", "ImageRaw::new", "ImageRaw::new must return Ok exactly when data.len() == bytes_per_row(size.width, BITS_PER_PIXEL) * size.height and store data/size unchanged", at=n.span, fn=n.path)
     nc = prog.method1(IR, "new_const", None)
     org = Origins(nc)
@@ -155,20 +181,25 @@ def image_new(prog, rep):
     dw = prog.method1(IR, "data_width", None)
     w = ("field", ("field", P(1, "self"), field_index(prog, IR, "size")), 0)
     table = {}
-    for lits, ret, _ in decisions(dw):
-        for d, lit in lits:
-            d = fold(strip_refs(d))
-            m = match(d, ("bin", "Lt", "?b", ("const", 8)))
-            if m is not None and is_bpp(m["?b"]):
-                table[lit_truth(lit)] = fold(strip_refs(ret))
-            m = match(d, ("bin", "Ge", "?b", ("const", 8)))
-            if m is not None and is_bpp(m["?b"]):
-                table[not lit_truth(lit)] = fold(strip_refs(ret))
+    try:
+        for sm in Paths(prog, inline=_inl_bpr(prog)).of(dw):
+            for fc in sm.facts:
+                a_, b_ = (_nocast(fold(strip_refs(x))) if isinstance(x, tuple) and x and isinstance(x[0], str) else x for x in fc[1:3])
+                if fc[0] == "lt" and is_bpp(a_) and b_ == ("const", 8):
+                    table[True] = _nocast(fold(strip_refs(sm.ret)))
+                elif fc[0] == "le" and a_ == ("const", 8) and is_bpp(b_):
+                    table[False] = _nocast(fold(strip_refs(sm.ret)))
+                elif fc[0] == "le" and is_bpp(a_) and b_ == ("const", 7):
+                    table[True] = _nocast(fold(strip_refs(sm.ret)))
+                elif fc[0] == "lt" and a_ == ("const", 7) and is_bpp(b_):
+                    table[False] = _nocast(fold(strip_refs(sm.ret)))
+    except Unsupported:
+        pass
     sub = table.get(True)
     ok = table.get(False) == w and sub is not None
     if ok:
-        m = match(sub, ("bin", "Mul", ("call", bpr.path, "_", (w, "?b1")), ("bin", "Div", ("const", 8), "?b2")))
-        ok = m is not None and is_bpp(m["?b1"]) and is_bpp(m["?b2"])
+        m = match(sub, ("bin", "Mul", _bpr(w), ("bin", "Div", ("const", 8), "?b2")))
+        ok = m is not None and is_bpp(m["?bpp"]) and is_bpp(m["?b2"])
     rep.check(ok, "R09.2", "ImageRaw::data_width", "data_width must be bytes_per_row(width, bpp) * (8 / bpp) below 8 bpp and width otherwise; found %s" % {k: show(v) for k, v in table.items()}, at=dw.span, fn=dw.path)
 
 
